@@ -161,7 +161,7 @@ Proof.
     + repeat constructor.
 Qed.
 
-(* finding F20: two runtimes execute the permitted no-op redefinition of one template cell *)
+(* finding C16-N1: two runtimes execute the permitted no-op redefinition of one template cell *)
 Lemma tmpl_redefine_race_refuted : forall p site raw i, exists tr,
   interleaving [events_of_run 0 p [OTmplRedefine site raw i]; events_of_run 1 p [OTmplRedefine site raw i]] tr /\
   race tr.
